@@ -249,8 +249,12 @@ func loop(ctx context.Context, v any, i int, path []string, new *any, action int
 			}
 
 		case nil:
-			// Let's overwrite part of the path
-			return nil, errOverwritePath
+			// create the missing part of the path
+			var nv any = *new
+			for j := len(path) - 1; j >= i; j-- {
+				nv = map[string]any{path[j]: nv}
+			}
+			return nv, nil
 
 		case string, int, float64, bool:
 			return nil, fmt.Errorf("unable to alter data structure using that path because one of the path elements is an end of tree (%T) rather than a map. Instead please have the full path you want to add as part of the amend JSON string in `alter`", v)
